@@ -195,7 +195,9 @@ int main(int argc, char **argv) {
     uint64_t total_units = ngraphs * wchunks;
     uint64_t seed = (uint64_t) A.geti("seed", 0);
     int min_dim = (int) A.geti("min-dim", 0);
-    auto unit_graph = [&](uint64_t u) { uint64_t uu = ((u / wchunks) + seed) % ngraphs; return fams.empty() ? vg::graph_from_mask(n, uu) : vg::family(fams[uu]); };
+    int orient_mode = (int) A.geti("orient", 0);
+    auto unit_graph0 = [&](uint64_t u) { uint64_t uu = ((u / wchunks) + seed) % ngraphs; return fams.empty() ? vg::graph_from_mask(n, uu) : vg::family(fams[uu]); };
+    auto unit_graph = [&](uint64_t u) { vg::EdgeList g = unit_graph0(u); vg::orient(g, orient_mode); return g; };
     auto describe = [&](uint64_t u, uint64_t sub, uint64_t) { vg::EdgeList el = unit_graph(u); std::vector<double> w; vg::weighting(alpha, el.m(), sub, w); return std::make_pair(std::string("mpi entry point"), vg::case_string(el, w)); };
     auto work = [&](uint64_t u, uint64_t start_sub) {
         vg::EdgeList el = unit_graph(u);
@@ -204,7 +206,7 @@ int main(int argc, char **argv) {
         auto cyc = vg::all_simple_cycles(el);
         uint64_t nw = vg::num_weightings(alpha, el.m());
         std::vector<double> w;
-        for (uint64_t s = start_sub; s < nw; ++s) {
+        for (uint64_t s = start_sub; s < nw; ++s) { if (R.expired()) break;
             if (s % wchunks != u % wchunks) continue;
             vg::weighting(alpha, el.m(), s, w);
             R.sh->crumbs[R.worker_id].sub.store(s);
